@@ -17,6 +17,19 @@ if VERIF not in sys.path:
 sys.setrecursionlimit(10000)
 
 
+def _twins(inputs, limit=3):
+    """copies of `inputs` in which one integer parameter of inputs["env"] equal to -1 is -2, or the reverse"""
+    env = inputs.get("env") if isinstance(inputs, dict) else None
+    out = []
+    if isinstance(env, dict):
+        for k, v in env.items():
+            if type(v) is int and v in (-1, -2) and len(out) < limit:
+                e2 = dict(env)
+                e2[k] = -3 - v
+                out.append(dict(inputs, env=e2))
+    return out
+
+
 def main():
     assert sys.argv[1] == "--batch"
     prop = sys.argv[2]
@@ -62,15 +75,25 @@ def main():
             _C.reset_process_state()
         except Exception:   # noqa
             continue
+        ran = []
         for pos, i in enumerate(grp):
             it = items[i]
+            # look-alikes first: the same input with one parameter -1 exchanged for -2 or the reverse (CPython hashes both to -2, so
+            # every table keyed by a hash or by hash-based equality sees them as the same key)
+            for tw in _twins(it["inputs"]):
+                try:
+                    mod.observe(it["spec"], tw)
+                    ran.append({"spec": it["spec"], "inputs": tw})
+                except Exception:   # noqa
+                    pass
             try:
                 o2 = mod.observe(it["spec"], it["inputs"])
                 v2, msg2 = mod.judge(it["spec"], it["inputs"], o2, "validation")
             except Exception:   # noqa
                 continue
-            if v2 and pos > 0:
-                out[i]["history_violation"] = {"outputs": o2, "msg": msg2, "history": [{"spec": items[j]["spec"], "inputs": items[j]["inputs"]} for j in grp[:pos]]}
+            if v2 and ran:
+                out[i]["history_violation"] = {"outputs": o2, "msg": msg2, "history": list(ran)}
+            ran.append({"spec": it["spec"], "inputs": it["inputs"]})
     sys.stdout = real_stdout
     json.dump(out, sys.stdout, default=str)
 
